@@ -278,7 +278,7 @@ def identify(
                 "verification of recursive object identification is not supported"
             )
 
-        if not obj_type == ("auto" or "directory"):
+        if obj_type not in ("auto", "directory"):
             raise click.BadParameter(
                 "recursive identification is supported only for directories"
             )
